@@ -447,7 +447,7 @@ def verus_unit(prop, tier, known_by_ob, res, vdir, only_set, u):
         recs = V.generate(tpath, gen, prop.get("verus_features"))
         res.extraction += recs
         gtext = read(gen)
-        res.assumptions += sorted(set(V.scan_assumptions(gtext)))
+        res.assumptions += sorted(set(V.scan_assumptions(gtext) + V.scan_standins(ttext)))
         out = V.run_verus(gen, rlimit=prop.get("verus_rlimit"))
         res.backend_cmds.append(out["cmd"])
         write(os.path.join(EVIDENCE, "logs", "%s-%s-verus-%s.log" % (cid, tier, stem)), tail(out["out"], 200000))
